@@ -63,6 +63,12 @@ def gen_history(rng: random.Random, nops: typing.Optional[int] = None) -> list[d
         ops.extend({**train(), 'project': ops[0]['project']} for _ in range(rng.randint(2, 4)))
         ops.append({'op': 'prune', 'project': ops[0]['project'], 'rel': 0, 'gen': rng.randint(0, 3)})
         nops = len(ops) + rng.randint(1, 3)
+    if rng.random() < 0.04:  # swarm: a release with more than nine generations (numbering / ordering beyond one digit)
+        ops[0]['crash'] = None
+        ops.extend({'op': 'train', 'project': ops[0]['project'], 'rel': 0, 'states': [rng.randbytes(3).hex()], 'crash': None,
+                    'lose': None} for _ in range(rng.randint(10, 12)))
+        ops.append({'op': 'read', 'project': ops[0]['project'], 'rel': 0, 'gen': rng.randint(0, 11)})
+        nops = len(ops) + rng.randint(0, 2)
     if rng.random() < 0.15:  # swarm: two trainers of different releases in two processes, commits interleaved
         first = ops[0]
         first['crash'] = None
